@@ -44,6 +44,13 @@ type X struct {
 	callSeq  int
 	fds      map[string]int
 	Vars     map[string]any
+	// KeyExtra, if set, adds a family's own shared state to StateKey; returning "" makes the key unusable.
+	KeyExtra func() string
+	// SharedExtra, if set, adds a family's own shared memory to SharedDigest.
+	SharedExtra func() string
+	fsOps       int
+	// AtEnd runs when the execution is over, whichever way it ended (judged, pruned, engine error).
+	AtEnd []func()
 	// Pending calls: call id -> description, removed on return (deadlock reports)
 	Pending map[int]string
 }
@@ -149,6 +156,14 @@ func (x *X) Add(w *fsnotify.Watcher, p string) error {
 	return err
 }
 
+// AddOps is AddWith(p, <ops>) through the verif hook (the option is not exported yet).
+func (x *X) AddOps(w *fsnotify.Watcher, p string, ops uint32) error {
+	id := x.call(w, "Add", p)
+	err := w.AddWith(p, fsnotify.VerifWithOps(fsnotify.Op(ops)))
+	x.ret(w, id, "Add", p, err, nil)
+	return err
+}
+
 func (x *X) Remove(w *fsnotify.Watcher, p string) error {
 	id := x.call(w, "Remove", p)
 	err := w.Remove(p)
@@ -189,7 +204,9 @@ type ConsumerMode struct {
 // Consume starts a thread receiving from the chosen channels until they are closed.
 func (x *X) Consume(w *fsnotify.Watcher, name string, m ConsumerMode) *vsched.Thread {
 	wi := x.widx(w)
-	return vsched.GoNamed(name, func() {
+	var t *vsched.Thread
+	defer func() { t.NoShared = true }() // only channel operations: never looks at shared memory
+	t = vsched.GoNamed(name, func() {
 		evOpen, erOpen := m.Events, m.Errors
 		n := 0
 		for evOpen || erOpen {
@@ -229,11 +246,14 @@ func (x *X) Consume(w *fsnotify.Watcher, name string, m ConsumerMode) *vsched.Th
 			}
 		}
 	})
+	return t
 }
 
 // ---- filesystem operations: each one scheduling point, then the real syscalls ----
 
 func (x *X) fs(what, arg string, err error) error {
+	x.fsOps++
+	vsys.Get().NoteKernelOp("fs " + what + " " + arg + " " + ErrClass(err))
 	x.obs(Obs{Kind: "fs", What: what, Arg: arg, Err: ErrClass(err)})
 	return err
 }
@@ -396,6 +416,9 @@ func (x *X) cleanup() {
 	for _, fd := range x.fds {
 		unix.Close(fd)
 	}
+	for _, f := range x.AtEnd {
+		f()
+	}
 }
 
 // P returns the path of an entry of the per-execution directory, relative to cwd.
@@ -454,6 +477,36 @@ func (x *X) StateKey() string {
 	var b strings.Builder
 	vs := vsys.Get()
 	b.WriteString(vs.KeyPart())
+	b.WriteString(x.tablesKey())
+	var ls []string
+	for l := range x.fds {
+		ls = append(ls, l)
+	}
+	sort.Strings(ls)
+	b.WriteString(strings.Join(ls, ","))
+	if x.KeyExtra != nil {
+		e := x.KeyExtra()
+		if e == "" {
+			return ""
+		}
+		b.WriteString("|" + e)
+	}
+	return b.String()
+}
+
+// SharedDigest is the memory threads can read without going through the scheduler: the library's tables
+// (every Watcher's, plus the family's own via SharedExtra). What the code under test reads from the
+// filesystem is observed call by call instead (vsys syscalls, vsched.OsLstat/OsReadDir/OsReadlink).
+func (x *X) SharedDigest() string {
+	e := ""
+	if x.SharedExtra != nil {
+		e = x.SharedExtra()
+	}
+	return x.tablesKey() + "|" + e
+}
+
+func (x *X) tablesKey() string {
+	var b strings.Builder
 	for i, w := range x.Watchers {
 		t := fsnotify.VerifTables(w, false)
 		var ents []string
@@ -466,12 +519,6 @@ func (x *X) StateKey() string {
 		sort.Strings(ents)
 		fmt.Fprintf(&b, "W%d[%s]ring%v/%d;", i, strings.Join(ents, " "), ringShape(t), t.CookieIndex)
 	}
-	var ls []string
-	for l := range x.fds {
-		ls = append(ls, l)
-	}
-	sort.Strings(ls)
-	b.WriteString(strings.Join(ls, ","))
 	return b.String()
 }
 
